@@ -292,18 +292,32 @@ func supervise(id, tier string) int {
 			lines = append(lines, fmt.Sprintf("KNOWN-FINDING: property=%s key=%s %s (%d cases; replay=%s)", id, v.Key, f.text, v.Count, p))
 			continue
 		}
-		// Believe a violation only if its replay file reproduces it every time.
+		// Believe a violation only if its replay file reproduces it every time, in a fresh process.
+		// If the first recorded case does not (it depended on state that earlier cases of the run
+		// had left behind), try the other recorded cases of the same key.
 		ok := 0
 		const tries = 5
-		for i := 0; i < tries; i++ {
-			rc := exec.Command(os.Args[0], "replay", p)
-			rc.Env = os.Environ()
-			if err := rc.Run(); err != nil {
-				if ee, isExit := err.(*exec.ExitError); isExit && ee.ExitCode() == 1 {
-					ok++
-				} else if isExit && ee.ExitCode() != 2 {
-					ok++ // replay crashed outright: the crash is the reproduction
+		cands := append([]json.RawMessage{v.Case}, v.Alt...)
+		descs := append([]string{v.Desc}, v.AltDesc...)
+		for ci, cand := range cands {
+			rf.Case, rf.Desc = cand, descs[ci]
+			b, _ := json.MarshalIndent(rf, "", " ")
+			os.WriteFile(p, b, 0o644)
+			ok = 0
+			for i := 0; i < tries; i++ {
+				rc := exec.Command(os.Args[0], "replay", p)
+				rc.Env = os.Environ()
+				if err := rc.Run(); err != nil {
+					if ee, isExit := err.(*exec.ExitError); isExit && ee.ExitCode() == 1 {
+						ok++
+					} else if isExit && ee.ExitCode() != 2 {
+						ok++ // replay crashed outright: the crash is the reproduction
+					}
 				}
+			}
+			if ok == tries {
+				v.Desc = descs[ci]
+				break
 			}
 		}
 		if ok == tries {
